@@ -271,6 +271,16 @@ def universes_c03():
         E("c0", "B", 1, 18, content=""), E("cs", "B", 1, 19, content="  lead and trail \n"), E("r0", "B", 10000, 20, [["d"]]),
         E("m0", "B", 0, 21, content="{\"name\": \"x\" }"),
     ]
+    # internal service events (kind 31494, signed by the relay's own key S inside add_service_event): role assignments and
+    # identities as the LMDB backend keeps them, versions of one address, an empty content, hostile strings in tags and content
+    us["service"] = [
+        E("sv1", "S", 31494, 10, [["t", "auth"], ["d", "auth:A"], ["p", "A"]], content="w"),
+        E("sv2", "S", 31494, 20, [["t", "auth"], ["d", "auth:A"], ["p", "A"]], content="r"),
+        E("sv3", "S", 31494, 15, [["d", "nip05:B"], ["t", "nip05"], ["p", "B"], ["n", "bob"], ["r", "wss://r"]], content="pkB"),
+        E("sv4", "S", 31494, 30, [["t", "auth"], ["d", "auth:C"], ["p", "C"]], content=""),
+        E("sv5", "S", 31494, 40, [["d", "quo"], ["t", "quo"]], content="quo"),
+        E("n1", "A", 1, 5),
+    ]
     return us
 
 
@@ -306,7 +316,7 @@ def universes_c04():
 
 PALETTE_OF = {}
 
-SYMTABS = {"ack": {"nothex": "this-is-not-an-event-id"}, "dunicode": {"uml": "\u00e4", "umlx": "\u00e4x"},
+SYMTABS = {"ack": {"nothex": "this-is-not-an-event-id"}, "service": {"quo": "a'\"\\b\u00e4\n", "pkB": C.pubkey("B"), "bob": "bob@example.com"}, "dunicode": {"uml": "\u00e4", "umlx": "\u00e4x"},
            "delnone": {"acoord": "30000:%s:x" % C.pubkey("A")},
            "verbatim": {"sp": " a ", "up": "ABCDEF", "num": "007", "nfc": "\u00e9", "nfd": "e\u0301"},
            "gcdigits": {"v999": "999", "vbig": "17000000150", "vz14": "01700000014", "vi14": 1700000014, "vneg": "0abc"}}
@@ -333,7 +343,7 @@ def with_lookups(script, uni):
     out, seen = [], []
     for k, op in enumerate(script):
         out.append(op)
-        if op[0] == "submit" and op[1] not in seen and uni.abs[op[1]]["auth"]:
+        if op[0] in ("submit", "service") and op[1] not in seen and uni.abs[op[1]]["auth"]:
             seen.append(op[1])
         if k < len(script) - 1 or True:
             for s in seen:
@@ -404,11 +414,11 @@ def run(prop, tier, seed, backends=BACKENDS, only_universe=None):
     rnd = random.Random(seed)
     design = tlc.DesignCheck([("MC_Store", "MC_Store_%s.cfg" % b, "Store/" + b) for b in backends], workers=3, timeout=1800)
     depth = {"quick": 3, "thorough": 4}[tier]
-    depth_of = {"regc": {"quick": 4, "thorough": 6}[tier]}
+    depth_of = {"regc": {"quick": 4, "thorough": 6}[tier], "service": {"quick": 3, "thorough": 4}[tier]}
     cap_of = {"regc": {"quick": 1300, "thorough": 6000}[tier]}
     if prop in ("C03", "C04"):
         depth = {"quick": 1, "thorough": 2}[tier]     # every variant on its own (and pairs): the quantifier is over inputs
-        depth_of = {"twins": {"quick": 3, "thorough": 4}[tier], "verbatim": 2}
+        depth_of = {"twins": {"quick": 3, "thorough": 4}[tier], "verbatim": 2, "service": {"quick": 3, "thorough": 4}[tier]}
     cap = {"quick": 1500 if prop == "C06" else 500, "thorough": 6000}[tier]
     own = prop + "_"
     # phase 1: TLC generates behaviours of Store.tla per (universe, backend, writer mode)
@@ -439,9 +449,13 @@ def run(prop, tier, seed, backends=BACKENDS, only_universe=None):
             scripts = scripts[:cap_of.get(cf["uname"], cap)]
         probes = tuple(final_probes(cf["uni"], prop))
         cf["stimuli"] = scripts
+        if cf["uname"] == "service":
+            # events of the relay's own key are not submitted from outside: the relay is asked to build them itself
+            scripts = [tuple(("service", op[1]) if op[0] == "submit" and cf["uni"].abs[op[1]]["pk"] == "S" else op for op in sc) for sc in scripts]
+            cf["stimuli"] = scripts
         cf["scripts"] = [with_lookups(sc, cf["uni"]) + probes for sc in scripts]
     # phase 2: run on the real storage classes
-    all_traces = pool.run_many(configs)
+    all_traces = pool.run_many(configs, config={"service_privatekey": C.SECRETS["S"]})
     for cf, traces in zip(configs, all_traces):
         cf["traces"] = traces
     # phase 3: TLC validates every trace
